@@ -405,11 +405,11 @@ def observed_by (a : Tn) (s : S) : Hist → List Resp
 def purge (a : Tn) (h : Hist) : Hist := h.filter fun p => p.1.idx == a.idx
 
 /-- **Non-interference** (Insert, Delete, UpdateMetadata, Query, BulkQuery, BatchDelete by ids — any
-    mix, any length, colliding local ids, spoofed keys, any namespaces; BulkInsert streams too): what tenant `a` observes in a
+    mix, any length, colliding local ids, spoofed keys, any namespaces; BulkInsert and BulkLoadHnsw streams too): what tenant `a` observes in a
     history shared with any other tenants is exactly what it observes when their requests are removed
     — found / not-found answers, vectors, metadata, error codes, quota refusals and deleted counts
     included.  By unwinding: `handle_view` (output consistency + step consistency on the A-view),
-    `handle_respects` (local respect).  Search, BulkSearch, BatchDelete by filter, the bulk streams,
+    `handle_respects` (local respect).  Search, BulkSearch, BatchDelete by filter,
     FlushHotTier and /usage are not in `Req`: see `C10_search_count_leak` and the replay oracle. -/
 theorem C10_noninterference (a : Tn) (h : Hist) (hkey : ∀ p ∈ h, p.1.idx = a.idx → p.1 = a) :
     ∀ (s1 s2 : S), ViewEq a s1 s2 → observed_by a s1 h = observed_by a s2 (purge a h) := by
